@@ -1,6 +1,22 @@
 (** C10 — tip arguments and the Tecan tip bit mask.
-    Statements only; proofs live in Proofs/TipsProofs.v. *)
-From Robo Require Import Prelude Tips TipsProofs.
+    Statements only; proofs live in Proofs/TipsProofs.v and Proofs/TextExtraProofs.v.
+
+    Where the clauses of the property are proved:
+    - a number n / Tip member Tn -> 2^(n-1), collections -> bitwise OR independent of order and repetition,
+      Tip.Any alone -> empty field, invalid elements rejected: this file (C10_single .. C10_reject_iff);
+    - "the mask appears in the record": C09_prepare_ok ([tip_mask (x_tip a) = Ok (ad_tip f)]) and
+      C09_roundtrip_AD ([pa_tip p = ad_tip f] after parsing the text);
+    - "both records of a transfer pair carry the same mask": C07_pairing ([pair_records]: [ad_tip fd = ad_tip fa],
+      [kw_fields]); stated here as C10_pair_same_mask;
+    - "EVO script commands": C13_fields / C13_parse_fields ([cm_mask c = Z.of_N (mask_or bs)]) and C13_wash;
+      stated here on the parsed command text as C10_command_mask / C10_wash_mask.
+    KNOWN FINDING (review item M15): an EMPTY collection of tips is not rejected.  Model and library agree:
+    [tip_mask (TipMany []) = Ok (Some 0)], Python [aspirate_well("P", 1, 10, tip=[])] appends
+    "A;P;;;1;;10.00;;;0;" (tip mask 0 selects no tip), likewise tip=(), set(), "" ; [evo_wash(tips=[])]
+    emits mask 0 (C13_example_wash_reject).  So "everything else is rejected" holds for invalid ELEMENTS
+    (C10_reject_iff) but not for the empty collection (C10_empty_collection). *)
+From Robo Require Import Prelude Str Wells Utils Labware Tips Records Partition Params Worklist EvoCmd
+  CmdDecode CmdParse TipsProofs PlanProofs EvoCmdProofs TextExtraProofs.
 From Coq Require Import Permutation.
 
 (** a number n in 1..8 and the Tip member Tn are both emitted as 2^(n-1) *)
@@ -43,7 +59,7 @@ Theorem C10_any : tip_mask (TipOne TAny) = Ok None.
 Proof. exact tip_mask_any. Qed.
 Print Assumptions C10_any.
 
-(** everything else is rejected *)
+(** everything else is rejected - with one exception, the empty collection (C10_empty_collection) *)
 Theorem C10_reject :
   (forall z, (z < 1 \/ z > 8)%Z -> exists e, tip_mask (TipOne (TInt z)) = Err e) /\
   (exists e, tip_mask (TipOne TOther) = Err e) /\
@@ -58,6 +74,38 @@ Theorem C10_reject_iff : forall l : list tipelem,
 Proof. exact tip_mask_many_err_iff. Qed.
 Print Assumptions C10_reject_iff.
 
+(** the empty collection is accepted and yields mask 0 (no tip selected); see the header *)
+Theorem C10_empty_collection : tip_mask (TipMany []) = Ok (Some 0%N).
+Proof. exact tx_empty_collection. Qed.
+Print Assumptions C10_empty_collection.
+
+(** both records of an executed transfer step (C07_pairing) carry the mask of the [tip] keyword *)
+Theorem C10_pair_same_mask : forall s ks kd sw dw v ws kw s', (0 < v)%Q ->
+  exec_step s ks kd sw dw v ws kw = (s', None) ->
+  exists fa fd tip m,
+    w_recs (st_wl s') = (w_recs (st_wl s) ++ [RA fa; RD fd] ++ tip)%list /\
+    tip_mask (k_tip kw) = Ok m /\ ad_tip fa = m /\ ad_tip fd = m.
+Proof. exact tx_pair_same_mask. Qed.
+Print Assumptions C10_pair_same_mask.
+
+(** the mask written into an Aspirate / Dispense script command (read from the command text with the
+    independent parser of Spec/CmdParse.v) is the mask of the tip list; [tx_lc_clean]: the liquid class has
+    no comma and no double quote (C13) *)
+Theorem C10_command_mask : forall kind R C a m text,
+  kind = "Aspirate"%string \/ kind = "Dispense"%string -> tx_lc_clean (c_liquid_class a) ->
+  evo_command kind R C a m = Ok text ->
+  exists c mk, parse_cmd text = Some c /\ tip_mask (TipMany (c_tips a)) = Ok (Some mk) /\
+               cm_mask c = Z.of_N mk.
+Proof. exact tx_command_mask. Qed.
+Print Assumptions C10_command_mask.
+
+(** the same for the Wash command *)
+Theorem C10_wash_mask : forall a text, evo_wash_cmd a = Ok text ->
+  exists wc mk, parse_wash text = Some wc /\ tip_mask (TipMany (wa_tips a)) = Ok (Some mk) /\
+                wc_mask wc = Z.of_N mk.
+Proof. exact tx_wash_mask. Qed.
+Print Assumptions C10_wash_mask.
+
 (** non-vacuity: mixed numbers and Tip members, repeated and unordered: tips 8, 2, 3 -> 128+2+4 *)
 Example C10_example :
   elems_bits [TInt 8; TTip 2; TInt 2; TTip 8; TInt 3; TTip 2] = Some [7; 1; 1; 7; 2; 1] /\
@@ -66,4 +114,28 @@ Example C10_example :
   tip_mask (TipOne (TTip 5)) = Ok (Some 16%N) /\
   tip_mask (TipMany [TInt 1; TAny]) = Err EReject /\
   tip_mask (TipMany [TInt 9]) = Err EReject.
+Proof. vm_compute. repeat split; reflexivity. Qed.
+
+(** non-vacuity of C10_pair_same_mask: an accepted transfer step with tips [3; T1; 3] on a 2 x 2 plate: both
+    records carry mask 5.  (For C10_command_mask / C10_wash_mask see C13_example_text, C13_example_wash.) *)
+Definition ex_lw : labware :=
+  {| lw_name := "P"; lw_geom := {| g_rows := 2; g_cols := 2; g_vrows := None |};
+     lw_min := 0; lw_max := 200; lw_vols := repeat 100%Q 4; lw_comp := [];
+     lw_hist := [(Some "initial"%string, repeat 100%Q 4)] |}.
+Definition ex_state : state :=
+  {| st_lw := [ex_lw];
+     st_wl := {| w_recs := []; w_max := 950; w_autosplit := true; w_diti := false; w_dev := Evo |} |}.
+Definition ex_kw : kwargs :=
+  {| k_liquid_class := PStr "W"; k_tip := TipMany [TInt 3; TTip 1; TInt 3]; k_rack_id := PStr "";
+     k_tube_id := PStr ""; k_rack_type := PStr ""; k_forced := PStr "" |}.
+
+Example C10_example_pair :
+  let r := exec_step ex_state 0 0 "A01" "B02" 10 (SInt 1) ex_kw in
+  snd r = None /\
+  map render (w_recs (st_wl (fst r))) = ["A;P;;;1;;10.00;W;;5;"; "D;P;;;4;;10.00;W;;5;"; "W1;"]%string /\
+  tip_mask (k_tip ex_kw) = Ok (Some 5%N) /\
+  map render (w_recs (fst (aspirate_well (st_wl ex_state)
+     {| x_rack_label := PStr "P"; x_position := PInt 1; x_volume := PV (XQ 10); x_liquid_class := PStr "";
+        x_tip := TipMany []; x_rack_id := PStr ""; x_tube_id := PStr ""; x_rack_type := PStr "";
+        x_forced := PStr "" |}))) = ["A;P;;;1;;10.00;;;0;"]%string.
 Proof. vm_compute. repeat split; reflexivity. Qed.
